@@ -8,6 +8,7 @@ import (
 	"log/slog"
 	"strings"
 	"sync"
+	"time"
 
 	"github.com/goblimey/go-ntrip/rtcm/handler"
 	"github.com/goblimey/go-ntrip/rtcm/type1005"
@@ -50,10 +51,10 @@ func analyseKind(m *handler.Message) string {
 }
 
 type view struct {
-	typ   int
-	raw   []byte
-	text  string // display without the time lines
-	emsg  string
+	typ  int
+	raw  []byte
+	text string // display without the time lines
+	emsg string
 	// the decoded object itself: every decoded field (wavelengths included) and its own readable form,
 	// which the handler's display does not reach for the constellations it has no time conversion for
 	decoded string
@@ -165,12 +166,65 @@ func init() {
 			}(g)
 		}
 		wg.Wait()
+		// (e) the same frames as ONE stream through HandleMessages, with a start byte followed by
+		// something that is not a leader in front of each (the framer hands those five bytes out as a
+		// message of their own): what a message holds and displays when it is delivered is what it
+		// still holds and displays after the rest of the stream has been read
+		var stream []byte
+		for i, f := range frames {
+			if i%2 == 0 {
+				stream = append(stream, 0xd3, 0xff, byte(i), 0x02, 0x03)
+			}
+			stream = append(stream, f...)
+		}
+		{
+			h := handler.New(start, slog.LevelDebug)
+			in := make(chan byte)
+			out := make(chan handler.Message)
+			go func() {
+				defer func() { recover() }()
+				for _, b := range stream {
+					in <- b
+				}
+				close(in)
+			}()
+			go func() {
+				defer func() {
+					if r := recover(); r != nil {
+						close(out)
+					}
+				}()
+				h.HandleMessages(in, out)
+			}()
+			var got []handler.Message
+			var then []view
+			deadline := time.After(20 * time.Second)
+		collect:
+			for {
+				select {
+				case m, ok := <-out:
+					if !ok {
+						break collect
+					}
+					got = append(got, m)
+					then = append(then, viewOf(&m))
+				case <-deadline:
+					bad("HandleMessages did not finish on the frames as one stream")
+					break collect
+				}
+			}
+			for k := range got {
+				if v := viewOf(&got[k]); !v.eq(then[k]) {
+					bad("message %d of the stream held %s when it was delivered and holds %s after the rest of the stream was read", k, clip(hx(then[k].raw), 60), clip(hx(v.raw), 60))
+				}
+			}
+		}
 		return &Obs{Line: strings.Join(parts, " | "), Data: problems}
 	}
 	props["C15"] = &Prop{
 		Rule: "op determ <T> <frames…>: each frame (all decodable types, well-formed MSM/1005/1006, random CRC-valid payloads, corrupted frames, non-RTCM) decoded by a fresh handler, after all the others in order " +
 			"and in reverse order through one handler, and by four concurrent handlers; decoded fields and readable text (without the MSM time lines) must be identical; displaying twice identical; raw bytes " +
-			"unchanged; a consumer's copy unaffected by another copy being displayed and modified; non-trivial = at least two frames; distinct = distinct op line",
+			"unchanged; look-alike sets (MSM messages with the same cell-mask bits in different satellite x signal shapes; frames sharing type, leading bytes and low length byte); a consumer's copy unaffected by another copy being displayed and modified; the frames as one stream (with false frame starts between them): every delivered message still holds and displays the same after the rest of the stream has been read; non-trivial = at least two frames; distinct = distinct op line",
 		Gen: func(c *Ctx, emit func(class, op string)) {
 			r := c.Rng
 			// FIRST in the process: messages of the constellations without a frequency table (SBAS, QZSS,
@@ -210,6 +264,28 @@ func init() {
 					hs = append(hs, hx(f))
 				}
 				emit("frame-sets", fmt.Sprintf("determ %s %s", defaultStart, strings.Join(hs, " ")))
+			}
+			// look-alikes: frames that anything remembered from an earlier frame could be confused by -
+			// MSM messages with the same header values and cell-mask bits grouped into different
+			// satellite x signal shapes, and frames sharing type, leading bytes and low length byte
+			for i := 0; i < c.N(40, 400); i++ {
+				a := randSpec(r, i%2 == 0, "8x8")
+				hs := []string{hx(mkFrame(a.encode()))}
+				shapes := [][2]int{{4, 16}, {16, 4}, {2, 32}, {32, 2}, {64, 1}}
+				r.Shuffle(len(shapes), func(x, y int) { shapes[x], shapes[y] = shapes[y], shapes[x] })
+				for _, sh := range shapes[:2+r.Intn(3)] {
+					hs = append(hs, hx(mkFrame(a.reshape(r, sh[0], sh[1]).encode())))
+				}
+				emit("msm-look-alikes", fmt.Sprintf("determ %s %s", defaultStart, strings.Join(hs, " ")))
+			}
+			for i := 0; i < c.N(40, 400); i++ {
+				var hs []string
+				for _, sg := range siblingSegs(r) {
+					if sg.kind == 'f' {
+						hs = append(hs, hx(sg.b))
+					}
+				}
+				emit("sibling-frames", fmt.Sprintf("determ %s %s", defaultStart, strings.Join(hs, " ")))
 			}
 			// well-formed MSM frames of ONE constellation whose timestamps step back by a little or a lot
 			// (neighbouring epochs out of order, a restart): what a frame decodes and displays to, the time
